@@ -11,7 +11,7 @@ from datetime import timedelta, timezone
 from .gen import T0
 
 MISSING = "<missing>"
-TAGV = [MISSING, None, "", "x", "X", "xy"]
+TAGV = [MISSING, None, "", "x", "X", "xy", "x\n"]  # "x\n": regular expressions' $ also matches before a trailing newline
 FLDV = [MISSING, None, 0, -1, 1, 2.5]
 MEASV = ["m1", "", "M1"]
 from datetime import datetime as _dt
@@ -26,7 +26,12 @@ def _far():
 
 
 FAR = _far()  # far outside the range in which float timestamps still resolve microseconds
-TIMEV = [T0, T0 + timedelta(microseconds=1), T0 - timedelta(days=20000), FAR, FAR + timedelta(microseconds=1)]
+from zoneinfo import ZoneInfo as _ZI
+
+# 01:30 wall time in London occurs twice on 2021-10-31; fold=1 is the second one (offset zero, yet not UTC)
+LONDON_FOLD = _dt(2021, 10, 31, 1, 30, fold=1, tzinfo=_ZI("Europe/London"))
+NY_FOLD = _dt(2021, 11, 7, 1, 30, fold=1, tzinfo=_ZI("America/New_York"))
+TIMEV = [T0, T0 + timedelta(microseconds=1), T0 - timedelta(days=20000), FAR, FAR + timedelta(microseconds=1), LONDON_FOLD.astimezone(timezone.utc), NY_FOLD.astimezone(timezone.utc)]
 SLOTS = {"time": TIMEV, "meas": MEASV, "tag.a": TAGV, "tag.b": TAGV, "field.a": FLDV, "field.f": FLDV}
 DEFAULT = {"time": T0, "meas": "m1", "tag.a": "x", "tag.b": MISSING, "field.a": 1, "field.f": MISSING}
 NPT = timezone(timedelta(hours=5, minutes=45))
@@ -78,6 +83,9 @@ def vocabulary():
     out.append((L("time", [M("ident")], ["cmp", ">=", T0]), "time"))
     for op in ("==", "<", ">="):
         out.append((L("time", [], ["cmp", op, FAR + timedelta(microseconds=1)]), "time"))
+    for rhs in (LONDON_FOLD, NY_FOLD):
+        for op in ("==", "!=", "<=", ">"):
+            out.append((L("time", [], ["cmp", op, rhs]), "time"))
     out.append((L("time", [], ["noop"]), None))
     # measurement
     for rhs in ("m1", "", "M1"):
@@ -102,6 +110,9 @@ def vocabulary():
     out.append((L("tag", [K("a")], ["matches", "x", 0]), "tag.a"))
     out.append((L("tag", [K("a")], ["matches", "x", 2]), "tag.a"))
     out.append((L("tag", [K("a")], ["matches", "x$", 0]), "tag.a"))
+    out.append((L("tag", [K("a")], ["matches", "^x$", 0]), "tag.a"))
+    out.append((L("tag", [K("a")], ["search", "x$", 0]), "tag.a"))
+    out.append((L("tag", [K("a")], ["search", "^x", 0]), "tag.a"))
     out.append((L("tag", [K("a")], ["search", "y", 0]), "tag.a"))
     out.append((L("tag", [K("a")], ["search", "^$", 0]), "tag.a"))
     out.append((L("tag", [K("a")], ["matches", "y", 0]), "tag.a"))
